@@ -48,7 +48,10 @@ func pemBlock(typ string, b []byte) []byte {
 }
 
 func sevBase(r polRow) *cpb.Policy {
-	p := &cpb.Policy{MinimumVersion: "0.0", MinimumBuild: 3, MinimumLaunchTcb: 5, ReportData: bytes.Repeat([]byte{7}, 64), HostData: bytes.Repeat([]byte{9}, 32), RequireAuthorKey: false, Product: nil}
+	// fields the derivation does not own, all set: among them the launch identity the caller expects
+	// (family / image id, whether an ID block / author key is required)
+	p := &cpb.Policy{MinimumVersion: "0.0", MinimumBuild: 3, MinimumLaunchTcb: 5, ReportData: bytes.Repeat([]byte{7}, 64), HostData: bytes.Repeat([]byte{9}, 32),
+		FamilyId: bytes.Repeat([]byte{0xaa}, 16), ImageId: bytes.Repeat([]byte{0xbb}, 16), RequireIdBlock: r.Bid, RequireAuthorKey: r.Bauth, Product: nil}
 	switch r.Bpolicy {
 	case "same":
 		p.Policy = ProdPolicy
@@ -191,6 +194,10 @@ func runPolicy(m *Material, r polRow) (problems []string, gotErr string, matches
 		base = &tcpb.Policy{HeaderPolicy: hdr, TdQuoteBodyPolicy: &tcpb.TDQuoteBodyPolicy{MrSeam: bytes.Repeat([]byte{2}, 48), AnyMrTd: [][]byte{Meas("t16")}}}
 	case "list_diff":
 		base = &tcpb.Policy{HeaderPolicy: hdr, TdQuoteBodyPolicy: &tcpb.TDQuoteBodyPolicy{MrSeam: bytes.Repeat([]byte{2}, 48), AnyMrTd: [][]byte{Meas("base-only")}}}
+	case "pin_listed":
+		base = &tcpb.Policy{HeaderPolicy: hdr, TdQuoteBodyPolicy: &tcpb.TDQuoteBodyPolicy{MrSeam: bytes.Repeat([]byte{2}, 48), MrTd: Meas("t16")}}
+	case "pin_other":
+		base = &tcpb.Policy{HeaderPolicy: hdr, TdQuoteBodyPolicy: &tcpb.TDQuoteBodyPolicy{MrSeam: bytes.Repeat([]byte{2}, 48), MrTd: Meas("base-only")}}
 	}
 	var snap *tcpb.Policy
 	if base != nil {
